@@ -97,7 +97,7 @@ func destinationTables(c *Ctx) {
 		}
 		var got interp.Value
 		if err == nil {
-			got, err = w.m.CallFunc(token.NoPos, ts, &interp.Ptr{Elem: v}, nil)
+			got, err = w.m.CallMethod(token.NoPos, &interp.Ptr{Elem: v}, ts.Name(), nil)
 		}
 		if err == nil && w.m.Choices.Forked() {
 			err = fmt.Errorf("the qualifier decision depends on something the constant inputs do not fix (%s)", w.m.Choices.Describe())
